@@ -86,7 +86,7 @@ PROPS = {
                      "Sqlize.C01.columns_on_reference_engine", "Sqlize.columns_spec_up", "Sqlize.colExecAll_of_abs", "Sqlize.colExecAll_set", "Sqlize.execAll_of_colExecAll", "Sqlize.added_column_def", "Sqlize.Table.walkCols_stmtCols",
                      "Sqlize.C01.changed_column_modified", "Sqlize.perm_of_not_changed", "Sqlize.ckey_inj", "Sqlize.Table.diff_like", "Sqlize.Table.walkCols_modify",
                      "Sqlize.C01.equal_primary_key_untouched", "Sqlize.C01.tables_from_scripts", "Sqlize.Migration.migrate_tbl",
-                     "Sqlize.Migration.diffTables2_appends", "Sqlize.proved_up", "Sqlize.Tie.element_skeleton_as_modelled", "Sqlize.Tie.api_load_skeleton_as_modelled", "Sqlize.C01.schema_on_reference_engine_either_setting", "Sqlize.schema_up_any", "Sqlize.execAll_strip"],
+                     "Sqlize.Migration.diffTables2_appends", "Sqlize.proved_up", "Sqlize.Tie.element_skeleton_as_modelled", "Sqlize.Tie.api_load_skeleton_as_modelled", "Sqlize.C01.schema_on_reference_engine_either_setting", "Sqlize.schema_up_any", "Sqlize.execAll_strip", "Sqlize.ckey_inj", "Sqlize.dqChars_inj"],
         "suites": [{"name": "pair"}],
         "corr_points": ["load-old", "load-new", "state-old", "state-new", "Diff", "state-diff", "StringUp"],
         "rule": PAIR_RULE,
@@ -100,15 +100,15 @@ PROPS = {
                        "the dropped-column list turn what the DROP COLUMNs leave of the old index list into the new one, unless an index is redefined while all its "
                        "old columns are dropped = the recorded finding (indexes_with_dropped_columns); a column with the same type and options (up to order) on both "
                        "sides gets no column statement in either direction (equal_column_untouched, no inline PRIMARY KEY option), and conversely a column whose type or "
-                       "options (other than COMMENT) differ gets a MODIFY COLUMN the reference engine reads as the new side's column, the old side's on the way down "
+                       "options differ gets a MODIFY COLUMN the reference engine reads as the new side's column, the old side's on the way down "
                        "(changed_column_modified); composed on the reference engine itself: Spec.execAll of the printed ADD / DROP / MODIFY COLUMN statements on the old schema is well-formed at every "
                        "step, leaves the table with a column list equal to the new side's (names, order, types, options up to order) and every other table untouched "
-                       "(columns_on_reference_engine; no inline PRIMARY KEY, no COMMENT options, common columns in the same relative order), and with the index statements after them the table also "
+                       "(columns_on_reference_engine; no inline PRIMARY KEY, common columns in the same relative order), and with the index statements after them the table also "
                        "ends with the new side's indexes up to order and its primary key (table_on_reference_engine; same key on both sides, outside the recorded finding); "
                        "and for whole schemas of any size without foreign keys: the printed up migration (CREATE TABLE + indexes + key for new tables, column and index statements for "
                        "common tables, DROP TABLE for old ones) executed by Spec.execAll on the old schema is well-formed at every step and ends in a schema DB.equiv to the new one "
                        "and every printed statement acts on an element that differs between the two schemas: the executable predicate Spec.c01 (migrates + allJustified, referential checks aside) "
-                       "returns ok (schema_on_reference_engine: the property itself on that scope). Not proved: a changed primary key (recorded finding), a COMMENT-only difference, the lift from one table to the whole schema, "
+                       "returns ok (schema_on_reference_engine: the property itself on that scope). Not proved: a changed primary key (recorded finding), the lift from one table to the whole schema, "
                        "other dialects; the full statement Sqlize.C01.Statement(_partial) is decided on "
                        "every run by correspondence (model = code on state and text) plus the "
                        "executable predicate Spec.c01 (reference DDL engine) on the migration text the Go code printed.",
@@ -138,9 +138,9 @@ PROPS = {
                        "(changed_column_reverted); composed on the reference engine: Spec.execAll of the printed down column statements on the new schema is well-formed at every step and "
                        "leaves the table with a column list equal to the old side's, other tables untouched (columns_on_reference_engine); the index statements printed when the down "
                        "migration drops columns are Abs.Idx.emitDownSup and turn what DROP COLUMN leaves of the new index list into the old one (indexes_with_dropped_columns); and for whole schemas without foreign keys, "
-                       "inline PRIMARY KEY and COMMENT options, tables on both sides order-compatible with the same primary key and outside the recorded region: the executable predicate Spec.c02 itself "
+                       "inline PRIMARY KEY, tables on both sides order-compatible with the same primary key and outside the recorded region: the executable predicate Spec.c02 itself "
                        "returns ok on the printed down migration (schema_on_reference_engine), and with the C01 theorem down undoes up on the reference engine (up_then_down_on_reference_engine). Remaining parts of "
-                       "Sqlize.C02.Statement_partial (a changed primary key, COMMENT options, foreign keys on the reference engine, other dialects) are decided by correspondence + Spec.c02 on the Go output.",
+                       "Sqlize.C02.Statement_partial (a changed primary key, foreign keys on the reference engine, other dialects) are decided by correspondence + Spec.c02 on the Go output.",
     },
     "C03": {
         "level": "proof",
@@ -162,7 +162,7 @@ PROPS = {
                        "(Sqlize.C03.equal_schemas_from_scripts). Both clauses as the executable predicate: in the scope of the whole-schema theorems of C01 and C02 "
                        "Spec.c03 returns ok on the printed migrations (schema_on_reference_engine) - equal schemas give two empty migrations, and otherwise no statement targets a table that is "
                        "equivalent on both sides, since every printed statement is justified by a difference and a statement about an equivalent table never is (equal_table_never_justified). "
-                       "With an inline PRIMARY KEY (two representations of a key: recorded finding), foreign keys and COMMENT options that is decided "
+                       "With an inline PRIMARY KEY (two representations of a key: recorded finding), and foreign keys that is decided "
                        "by correspondence + Spec.c03 on the Go output.",
     },
     "C13": {
@@ -371,7 +371,7 @@ PROPS = {
         "assumptions": ["file timestamps strictly increase (one write per second)", "old is not re-used after Diff"],
         "explanation": "Proved for histories of any length: convergence, empty next diff, equal fingerprint and the way back, as an assume-guarantee "
                        "composition of the one-step properties; and on the implementation model itself, without assuming them (model_converges, model_next_diff_empty): "
-                       "for revision lists of any length whose steps are inside the scope of C01.schema_on_reference_engine (MySQL reader model, no foreign keys / inline PRIMARY KEY / COMMENT), "
+                       "for revision lists of any length whose steps are inside the scope of C01.schema_on_reference_engine (MySQL reader model, no foreign keys / inline PRIMARY KEY), "
                        "the history the workflow writes (each printed up migration appended as it reaches the text) is computed without error, is accepted by the reference engine "
                        "statement by statement, describes a schema DB.equiv to the newest revision's, and the next diff is empty both ways. Outside that scope, the fingerprint clause and the "
                        "way back through files: the real multi-step workflow is driven on every run and every recorded migration is "
